@@ -29,7 +29,10 @@ import (
 	"strconv"
 	"strings"
 	"sync"
+	"sync/atomic"
+	"syscall"
 	"testing"
+	"time"
 
 	"github.com/go-jose/go-jose/v4"
 
@@ -1363,6 +1366,9 @@ func c17RaceWhere(report string) []string {
 	return out
 }
 
+// c17RaceStall: how long the race child may stay silent before it is considered stuck
+const c17RaceStall = 90 * time.Second
+
 func TestVerifC17Race(t *testing.T) {
 	n := vf.N(60)
 
@@ -1418,6 +1424,18 @@ func TestVerifC17Race(t *testing.T) {
 
 		pw.Close()
 
+		// watchdog: a case normally takes milliseconds.  A child that reports nothing for c17RaceStall is stuck inside the
+		// case (seen with seeded/C17-9: an atomic.Value copied by WithConfig while its first Store is in progress keeps
+		// the "store in progress" marker for ever and every later Load/Store on the copy spins); it gets SIGQUIT (stacks
+		// into stderr), then SIGKILL, and the case is reported as Crashed ("no progress").
+		var hung atomic.Bool
+
+		watchdog := time.AfterFunc(c17RaceStall, func() {
+			hung.Store(true)
+			_ = cmd.Process.Signal(syscall.SIGQUIT)
+			time.AfterFunc(5*time.Second, func() { _ = cmd.Process.Kill() })
+		})
+
 		cur, last := -1, from-1
 		sc := bufio.NewScanner(pr)
 		readLog := func() string {
@@ -1435,6 +1453,8 @@ func TestVerifC17Race(t *testing.T) {
 		seen := 0
 
 		for sc.Scan() {
+			watchdog.Reset(c17RaceStall)
+
 			fs := strings.SplitN(sc.Text(), " ", 4)
 
 			switch fs[0] {
@@ -1455,6 +1475,7 @@ func TestVerifC17Race(t *testing.T) {
 		}
 
 		err := cmd.Wait()
+		watchdog.Stop()
 		pr.Close()
 
 		if cur >= 0 {
@@ -1471,12 +1492,24 @@ func TestVerifC17Race(t *testing.T) {
 				}
 			}
 
+			if hung.Load() {
+				first = fmt.Sprintf("no progress for %s inside the case (livelock / deadlock); child killed", c17RaceStall)
+
+				for _, l := range strings.Split(stderr.String(), "\n") {
+					if strings.Contains(l, "sync/atomic.(*Value)") || strings.Contains(l, "heimdall/internal/rules") {
+						first += "; " + strings.TrimSpace(l)
+
+						break
+					}
+				}
+			}
+
 			o := &c17RaceObs{Races: strings.Count(txt, "WARNING: DATA RACE"), Crashed: first, Where: c17RaceWhere(txt)}
 
 			// a runtime crash that is neither a detected race nor a concurrent map access (e.g. "found bad pointer in Go
 			// heap", seen once in ~40 runs on the unchanged tree, inside a dependency using unsafe) is reported only if
 			// it happens again when the case is repeated in a fresh process
-			if o.Races == 0 && !strings.Contains(first, "concurrent map") {
+			if o.Races == 0 && !strings.Contains(first, "concurrent map") && !hung.Load() {
 				attempts[cur]++
 				if attempts[cur] < 3 {
 					notRepro[cur] = first
